@@ -12,6 +12,8 @@ inductive Op
   | atom (x : Nat) (op : AOp)
   | fence (o : Ord)
   | cellRead (c : Nat) | cellWrite (c : Nat) (v : Int)
+  /-- a read / write section of a cell that stays open across other operations: `let p = cell.get()` … `drop(p)` -/
+  | cellReadBegin (c : Nat) | cellReadEnd (c : Nat) | cellWriteBegin (c : Nat) (v : Int) | cellWriteEnd (c : Nat)
   | lock (m : Nat) | tryLock (m : Nat) | unlock (m : Nat)
   | read (l : Nat) | tryRead (l : Nat) | write (l : Nat) | tryWrite (l : Nat)
   | unread (l : Nat) | unwrite (l : Nat)
@@ -141,6 +143,10 @@ def parseOp (toks : List String) : Option Op :=
   | ["fence", o] => do some (.fence (← Ord.parse o))
   | ["crd", c] => do some (.cellRead (← c.toNat?))
   | ["cwr", c, v] => do some (.cellWrite (← c.toNat?) (← v.toInt?))
+  | ["crdb", c] => do some (.cellReadBegin (← c.toNat?))
+  | ["crde", c] => do some (.cellReadEnd (← c.toNat?))
+  | ["cwrb", c, v] => do some (.cellWriteBegin (← c.toNat?) (← v.toInt?))
+  | ["cwre", c] => do some (.cellWriteEnd (← c.toNat?))
   | ["lock", m] => do some (.lock (← m.toNat?))
   | ["trylock", m] => do some (.tryLock (← m.toNat?))
   | ["unlock", m] => do some (.unlock (← m.toNat?))
